@@ -224,6 +224,7 @@ type Obligation struct {
 	Output string
 	Note   string
 	Reach  string // sat: the obligation's path condition is consistent with the assumptions in force; unsat: the obligation is vacuous
+	Success bool   // generated at a return whose error result is the constant nil (or that returns no error): a success path
 	Clause *CExpr `json:"-"` // the contract clause of a post-condition (automatic replay)
 }
 
